@@ -4,7 +4,7 @@
     statement is C08_sequence in Properties/C03.v's round-trip development once
     messages are produced by the encoder; here it is stated for arbitrary accepted
     inputs.) *)
-From RL Require Import Model.Decode Spec.SpecDecode Spec.SpecEncode Proofs.Framing Proofs.Sequence.
+From RL Require Import Model.Decode Spec.SpecDecode Spec.SpecEncode Proofs.Framing Proofs.Sequence Proofs.Transport.
 
 (** the declared length fits: control (12 <= Length <= |b|) or data carrying L *)
 Theorem C08_suffix : forall o b s, 2 <= len b ->
@@ -59,6 +59,16 @@ Theorem C08_sequence : forall vs, forallb framed vs = true ->
   = map (fun v => Some (canon v)) vs.
 Proof. exact sequence_decodes. Qed.
 
+(** the same on the Model decoder *)
+Theorem C08_model_suffix : forall o b s m rest, bytes_ok b = true -> bytes_ok s = true ->
+  m_decode o b = Val (Ok m, rest) ->
+  (fw_T (fld 2 0 b) = true \/ fw_L (fld 2 0 b) = true) ->
+  m_decode o (b ++ s) = Val (Ok m, rest ++ s).
+Proof. exact model_suffix. Qed.
+Theorem C08_model_back_to_back : forall v rest, framed v = true -> bytes_ok (s_encode v ++ rest) = true ->
+  m_decode strict_opts (s_encode v ++ rest) = Val (Ok (canon v), rest).
+Proof. exact model_back_to_back. Qed.
+
 Example C08_example :
   s_decode strict_opts ([19;32;0;20; 0;1;0;2;0;3;0;4; 1;8;0;0;0;0;0;6] ++ [7;7;7]) =
   add_rest [7;7;7] (s_decode strict_opts [19;32;0;20; 0;1;0;2;0;3;0;4; 1;8;0;0;0;0;0;6]).
@@ -72,3 +82,5 @@ Print Assumptions C08_avps_concat.
 Print Assumptions C08_avps_records.
 Print Assumptions C08_back_to_back.
 Print Assumptions C08_sequence.
+Print Assumptions C08_model_suffix.
+Print Assumptions C08_model_back_to_back.
